@@ -343,11 +343,14 @@ func runC02(c *Ctx) {
 
 	c.rule("C02.G4", "every header of an adopted branch carries its proof of work: the forking header is written straight after the rollback and never goes through the regular path, so the scratch validation of the branch is its only check: "+headerSanityValidatorDoc, func() { c.headerSanityValidator() })
 
+	c.rule("C02.W2", "an offered branch is validated on its own: "+lightCtxNodeDoc, func() { c.lightCtxNode() })
+
 	c.rule("C02.W1", "rollBackToHeight is called only from handleHeadersMsg", func() {
 		rollM := c.method("neutrino", "blockManager", "rollBackToHeight")
 		c.whoMay("blockManager.rollBackToHeight", callTo(rollM), []string{fnHandleHeaders}, 2)
 	})
 
+	c.rule("C02.G5", rollbackReachesTargetDoc, func() { c.rollbackReachesTarget() })
 	c.rule("C02.G2", "non-connecting headers are considered only from the sync peer or once block headers are synced: the reorg branch (store lookups, rollback, write) is unreachable otherwise", func() {
 		fn := c.fn(fnHandleHeaders)
 		syncPeer := c.method("neutrino", "blockManager", "SyncPeer")
@@ -625,66 +628,84 @@ const branchOwnAncestorsDoc = "the offered branch is validated against its own a
 func (c *Ctx) branchOwnAncestors() {
 	bhs := func(m string) *types.Func { return c.method("headerfs", "BlockHeaderStore", m) }
 	msgHeaders := func() *types.Var { return c.field(pWire, "MsgHeaders", "Headers") }
-		fn := c.fn(fnHandleHeaders)
-		sanity := c.method("neutrino", "blockManager", "checkHeaderSanity")
-		san := find(fn, withArg(callTo(sanity), 2, isConstBool(true)))
-		if len(san) == 0 {
-			c.fail(c.nm(fn)+" | reorg sanity call", c.P.Pos(fn.Pos()), "no checkHeaderSanity(.., true, ..) call found")
-			return
+	fn := c.fn(fnHandleHeaders)
+	sanity := c.method("neutrino", "blockManager", "checkHeaderSanity")
+	san := find(fn, withArg(callTo(sanity), 2, isConstBool(true)))
+	if len(san) == 0 {
+		c.fail(c.nm(fn)+" | reorg sanity call", c.P.Pos(fn.Pos()), "no checkHeaderSanity(.., true, ..) call found")
+		return
+	}
+	isBack := func(v ssa.Value) bool {
+		e, ok := ir.Strip(v).(*ssa.Extract)
+		if !ok || e.Index != 1 {
+			return false
 		}
-		isBack := func(v ssa.Value) bool {
-			e, ok := ir.Strip(v).(*ssa.Extract)
-			if !ok || e.Index != 1 {
+		in, ok := e.Tuple.(ssa.Instruction)
+		return ok && callTo(bhs("FetchHeader"))(in)
+	}
+	nodeHeight := c.field("headerlist", "Node", "Height")
+	for _, s := range san {
+		h := ir.LoopHeaderOf(s.Block())
+		construct := c.nm(fn) + " | parent height of a branch header = fork height + position"
+		if h == nil {
+			c.fail(construct, c.at(s), "the reorg sanity check is not inside a loop over the branch")
+			continue
+		}
+		lf := loopFormOf(h)
+		if lf.problem != "" {
+			c.fail(construct, c.at(s), lf.problem)
+			continue
+		}
+		cc := ir.CallOf(s)
+		// validated header: element at the loop position of a sub-slice of msg.Headers
+		elemOK := ir.DerivesFrom(cc.Args[1], func(x ssa.Value) bool {
+			ia, ok := x.(*ssa.IndexAddr)
+			if !ok {
 				return false
 			}
-			in, ok := e.Tuple.(ssa.Instruction)
-			return ok && callTo(bhs("FetchHeader"))(in)
+			off, isCtr := counterOffset(lf, ia.Index)
+			return isCtr && off == 0 && loadsField(msgHeaders())(ia.X)
+		})
+		c.verdict(elemOK, c.nm(fn)+" | validated branch header is the element at the loop position", c.at(s), "msg.Headers[i:][position]", "the header handed to checkHeaderSanity is not the element at the loop position of msg.Headers[i:]", c.at(s))
+		coef, ctr, k, ok := linTerms(cc.Args[3], lf, isBack)
+		okH := ok && coef[0] == 1 && ctr == 1 && k == 0
+		c.verdict(okH, construct, c.at(s), "backHeight + position", fmt.Sprintf("the parent height handed to checkHeaderSanity is not (fork height) + (position in the branch) (decomposed: fork height x%d, position x%d, constant %+d, other terms: %v): the contextual checks (retarget, median time past) would look at the wrong ancestors whenever the message starts with headers the client already has", coef[0], ctr, k, !ok), c.at(s))
+		// the node pushed for this header
+		in := ir.LoopBlocks(h)
+		nPush := 0
+		ir.Instrs(fn, func(x ssa.Instruction) {
+			st, isSt := x.(*ssa.Store)
+			if !isSt || !in[st.Block()] {
+				return
+			}
+			fa, isFa := st.Addr.(*ssa.FieldAddr)
+			if !isFa || ir.FieldOfAddr(fa) != nodeHeight {
+				return
+			}
+			nPush++
+			coef, ctr, k, ok := linTerms(st.Val, lf, isBack)
+			c.verdict(ok && coef[0] == 1 && ctr == 1 && k == 1, c.nm(fn)+" | height of the node pushed on reorgList = fork height + 1 + position", c.at(x), "backHeight + 1 + position", fmt.Sprintf("the height recorded for a branch header on reorgList is not (fork height) + 1 + position (fork height x%d, position x%d, constant %+d, other terms: %v)", coef[0], ctr, k, !ok), c.at(x))
+		})
+		if nPush == 0 {
+			c.fail(c.nm(fn)+" | height of the node pushed on reorgList = fork height + 1 + position", c.at(s), "no headerlist.Node with a Height is built inside the branch loop")
 		}
-		nodeHeight := c.field("headerlist", "Node", "Height")
-		for _, s := range san {
-			h := ir.LoopHeaderOf(s.Block())
-			construct := c.nm(fn) + " | parent height of a branch header = fork height + position"
-			if h == nil {
-				c.fail(construct, c.at(s), "the reorg sanity check is not inside a loop over the branch")
-				continue
-			}
-			lf := loopFormOf(h)
-			if lf.problem != "" {
-				c.fail(construct, c.at(s), lf.problem)
-				continue
-			}
-			cc := ir.CallOf(s)
-			// validated header: element at the loop position of a sub-slice of msg.Headers
-			elemOK := ir.DerivesFrom(cc.Args[1], func(x ssa.Value) bool {
-				ia, ok := x.(*ssa.IndexAddr)
-				if !ok {
-					return false
-				}
-				off, isCtr := counterOffset(lf, ia.Index)
-				return isCtr && off == 0 && loadsField(msgHeaders())(ia.X)
-			})
-			c.verdict(elemOK, c.nm(fn)+" | validated branch header is the element at the loop position", c.at(s), "msg.Headers[i:][position]", "the header handed to checkHeaderSanity is not the element at the loop position of msg.Headers[i:]", c.at(s))
-			coef, ctr, k, ok := linTerms(cc.Args[3], lf, isBack)
-			okH := ok && coef[0] == 1 && ctr == 1 && k == 0
-			c.verdict(okH, construct, c.at(s), "backHeight + position", fmt.Sprintf("the parent height handed to checkHeaderSanity is not (fork height) + (position in the branch) (decomposed: fork height x%d, position x%d, constant %+d, other terms: %v): the contextual checks (retarget, median time past) would look at the wrong ancestors whenever the message starts with headers the client already has", coef[0], ctr, k, !ok), c.at(s))
-			// the node pushed for this header
-			in := ir.LoopBlocks(h)
-			nPush := 0
-			ir.Instrs(fn, func(x ssa.Instruction) {
-				st, isSt := x.(*ssa.Store)
-				if !isSt || !in[st.Block()] {
-					return
-				}
-				fa, isFa := st.Addr.(*ssa.FieldAddr)
-				if !isFa || ir.FieldOfAddr(fa) != nodeHeight {
-					return
-				}
-				nPush++
-				coef, ctr, k, ok := linTerms(st.Val, lf, isBack)
-				c.verdict(ok && coef[0] == 1 && ctr == 1 && k == 1, c.nm(fn)+" | height of the node pushed on reorgList = fork height + 1 + position", c.at(x), "backHeight + 1 + position", fmt.Sprintf("the height recorded for a branch header on reorgList is not (fork height) + 1 + position (fork height x%d, position x%d, constant %+d, other terms: %v)", coef[0], ctr, k, !ok), c.at(x))
-			})
-			if nPush == 0 {
-				c.fail(c.nm(fn)+" | height of the node pushed on reorgList = fork height + 1 + position", c.at(s), "no headerlist.Node with a Height is built inside the branch loop")
-			}
-		}
+	}
+}
+
+const rollbackReachesTargetDoc = "a rollback that reports success has reached its target: rollBackToHeight returns nil only on the edge where the tip of the block header store was found at or below the requested height (the exit of the loop test, in whatever spelling); the reorganisation path writes the first header of the new branch at backHeight+1 straight after a nil return, so a rollback given up half-way (at a shutdown poll, say) and reported as done puts the new branch on top of left-over headers of the old one, and the store that is reopened afterwards is no chain"
+
+// rollbackReachesTarget: see rollbackReachesTargetDoc.
+func (c *Ctx) rollbackReachesTarget() {
+	fn := c.fn("(*neutrino.blockManager).rollBackToHeight")
+	tipH := c.field("headerfs", "BlockStamp", "Height")
+	isTip := func(v ssa.Value) bool { return loadsField(tipH)(v) }
+	isH := func(v ssa.Value) bool {
+		return ir.DerivesFrom(v, func(x ssa.Value) bool { return x == ssa.Value(fn.Params[1]) })
+	}
+	g, odd := relGuard("store tip height <= target height", fn, isTip, isH, token.LEQ)
+	if len(odd) > 0 {
+		c.fail(c.nm(fn)+" | comparison shape", c.P.Pos(fn.Pos()), "the tip is compared with the target height by "+join(odd)+": success must mean the tip is at or below the target")
+		return
+	}
+	c.nilReturnsGuarded(fn, g, 1)
 }
